@@ -1,4 +1,4 @@
-import SiaProofs.Lemmas.MerkleRhpBuildProof
+import SiaProofs.Lemmas.MerkleRhpConvert
 import SiaProofs.Props.C16
 /-!
 # C16 — range proofs inside one sector (rhp/v2 `RangeProofVerifier`, rhp/v4 `VerifyLeafProof`)
@@ -132,5 +132,51 @@ theorem c16_leaf_range_length_fixed [DecidableEq H] (n : Nat) (proof leaves : Li
     (hl : proof.length ≠ rangeProofSize n s e) :
     rangeProofVerify n proof leaves s e root = false := by
   unfold rangeProofVerify; simp [hl]
+
+
+/-! ## ConvertProofOrdering -/
+
+/-- `ConvertProofOrdering` turns the single-leaf proof (lefts high-to-low, then rights low-to-high)
+into the leaf-to-root sibling path that consensus storage-proof verification folds: folding it
+from the leaf hash with the index bits gives the plain sector root. -/
+theorem c16_convert_ordering (ls : List H) (k : Nat) (hlen : ls.length = 2 ^ k) (hk : k ≤ 30)
+    (i : Nat) (hi : i < ls.length) :
+    ∃ path, convertProofOrdering (honestProof ls i (i + 1)) i = .ok path ∧
+      leafToRoot ls[i] i path = metaRoot ls := by
+  have hi' : i < 0 + 2 ^ k := by omega
+  -- the proof is lefts ++ rights
+  have hP : honestProof ls i (i + 1) = (lrOf ls i k 0).1 ++ (lrOf ls i k 0).2 := by
+    have h1 := c16_buildproof_eq ls k hlen hk i (i + 1) (by omega) (by omega)
+    unfold buildProof at h1
+    have hg : ¬ (i + 1 > ls.length ∨ i > i + 1 ∨ i = i + 1) := by omega
+    simp only [hg, if_false, Except.ok.injEq] at h1
+    rw [← h1, hlen, Nat.log2_two_pow]
+    have := buildProofRec_single ls i k 0 (Nat.zero_le _) hi'
+    simpa using this
+  have hL : (lrOf ls i k 0).1.length = popcount i := by
+    have := lrOf_left_length ls i k 0 (Nat.zero_le _) hi'
+    simpa using this
+  have hT := lrOf_total_length ls i k 0
+  refine ⟨pathOf ls i k 0, ?_, ?_⟩
+  · unfold convertProofOrdering
+    rw [hP]
+    have hg : ¬ (popcount i > ((lrOf ls i k 0).1 ++ (lrOf ls i k 0).2).length) := by
+      simp only [List.length_append]; omega
+    simp only [hg, if_false]
+    rw [← hL, List.take_left' rfl, List.drop_left' rfl]
+    have e : i = (i - 0) + 2 ^ k * 0 := by simp
+    have hb := convertLoop_block ls i k 0 0 (((lrOf ls i k 0).1 ++ (lrOf ls i k 0).2).length + 64) [] []
+      (Nat.zero_le _) hi' (by simp only [List.length_append]; omega)
+    simp only [List.nil_append, List.append_nil] at hb
+    rw [← e] at hb
+    rw [hb, convertLoop_nil]
+    simp [Except.map]
+  · have := leafToRoot_path ls i hi k 0 0 [] (Nat.zero_le _) hi' (by omega)
+    simp only [List.append_nil, Nat.sub_zero, Nat.mul_zero, Nat.add_zero, List.drop_zero, leafToRoot] at this
+    rw [this, ← hlen, List.take_of_length_le (Nat.le_refl _)]
+
+example : ∃ path, convertProofOrdering (honestProof ex8 5 6) 5 = .ok path ∧
+    leafToRoot (T.lf [5]) 5 path = metaRoot ex8 :=
+  c16_convert_ordering ex8 3 rfl (by decide) 5 (by decide)
 
 end C16
